@@ -108,6 +108,10 @@ func (o *objectGoMapReflect) toValue(val Value, throw bool) (reflect.Value, bool
 
 func (o *objectGoMapReflect) _put(key reflect.Value, val Value, throw bool) bool {
 	if key.IsValid() {
+		if o.fieldsValue.IsNil() {
+			o.val.runtime.typeErrorResult(throw, "Cannot set property %v of a nil Go map", key)
+			return false
+		}
 		if o.extensible || o.fieldsValue.MapIndex(key).IsValid() {
 			v, ok := o.toValue(val, throw)
 			if !ok {
@@ -144,8 +148,7 @@ func (o *objectGoMapReflect) setOwnStr(name unistring.String, val Value, throw b
 			}
 		}
 	}
-	o._put(key, val, throw)
-	return true
+	return o._put(key, val, throw)
 }
 
 func (o *objectGoMapReflect) setOwnIdx(idx valueInt, val Value, throw bool) bool {
@@ -168,8 +171,7 @@ func (o *objectGoMapReflect) setOwnIdx(idx valueInt, val Value, throw bool) bool
 			}
 		}
 	}
-	o._put(key, val, throw)
-	return true
+	return o._put(key, val, throw)
 }
 
 func (o *objectGoMapReflect) setForeignStr(name unistring.String, val, receiver Value, throw bool) (bool, bool) {
